@@ -83,7 +83,15 @@ def genHistory (pipe : String) (n : Nat) : G (List String) := do
         | none => pure none)
       let tid ← match toggled with | some t => pure t.1 | none => range 300 302
       let (s, o) ← match toggled with | some t => pure t.2 | none => genOptsLayout version
-      sets := sets ++ [if version = 9 then .v9opts [(tid, s, o)] 0 else .ipfixopts [(tid, s, o)] 0]
+      -- now and then the set describes a second options template behind the sampling one (an interface table, say), with as
+      -- many fields or fewer: the sampling template is stored with its own field list
+      let extra : List (Nat × List SField × List SField) ← (do
+        if (← chance 1 3) then
+          let n2 ← range 1 (max 1 o.length)
+          let o2 ← listOf n2 (do pure (⟨← range 1100 1200, ← pick [1, 2, 4, 8], none⟩ : SField))
+          pure [(310 + (← below 4), s, o2)]
+        else pure [])
+      sets := sets ++ [if version = 9 then .v9opts ((tid, s, o) :: extra) 0 else .ipfixopts ((tid, s, o) :: extra) 0]
       sc := { sc with opts := some (tid, s, o) }
     -- at most one sampling record per message, before or after the data set
     let optsFirst ← bool
